@@ -19,21 +19,37 @@ def worker(debug, nseeds, nsteps, files):
 
     reset_gv_debug(bool(debug))
     for f in files:
-        env = build_env(f)
+        env = build_env(None, composition(f)) if f.startswith('rc:') else build_env(f)
         h = hashlib.sha256()
         for seed in range(nseeds):
-            env.set_seed(seed)
-            env.reset()
-            arng = np.random.default_rng(1000 + seed)
-            for _ in range(nsteps):
-                h.update(enc_state(env.state).encode())
-                h.update(enc_state(env.observation).encode())
-                a = env.action_space.actions[int(arng.integers(len(env.action_space.actions)))]
-                r, d = env.step(a)
-                h.update(repr((float(r), bool(d))).encode())
-                if d:
-                    env.reset()
+            try:
+                env.set_seed(seed)
+                env.reset()
+                arng = np.random.default_rng(1000 + seed)
+                for _ in range(nsteps):
+                    h.update(enc_state(env.state).encode())
+                    h.update(enc_state(env.observation).encode())
+                    a = env.action_space.actions[int(arng.integers(len(env.action_space.actions)))]
+                    r, d = env.step(a)
+                    h.update(repr((float(r), bool(d))).encode())
+                    if d:
+                        env.reset()
+            except Exception as e:  # part of the trace (a composition may violate a component's precondition)
+                h.update(type(e).__name__.encode())
         print(os.path.basename(f), h.hexdigest())
+
+
+def composition(name):
+    """`rc:<k>`: the k-th random composition of built-in components (deterministic in k); odd k use the
+    stochastic observation function, so that the observation side consumes randomness too"""
+    import random
+    from harness import corr_env
+
+    k = int(name[3:])
+    data = corr_env.random_config(random.Random(f'xproc-{k}'))
+    if k % 2:
+        data['observation_function']['name'] = 'stochastic_raytracing'
+    return data
 
 
 def check(seed, tier):
@@ -43,8 +59,10 @@ def check(seed, tier):
     files = shipped_files()
     if tier == 'quick':
         files = [f for f in files if 'memory' in f][:4] + files[:3]
+        files += [f'rc:{k}' for k in range(8 * (seed % 50), 8 * (seed % 50) + 8)]
         hashseeds, nseeds, nsteps = ['0', '1', '2'], 3, 25
     else:
+        files += [f'rc:{k}' for k in range(400, 480)]
         hashseeds, nseeds, nsteps = ['0', '1', '2', '3', '12345'], 16, 120
     runs = {}
     procs = []
